@@ -67,6 +67,14 @@ pub struct Case {
     /// 3 close, 4 end, 5 attach); the script is not run in that case
     #[serde(default)]
     pub pre_open: Option<u8>,
+    /// frames the peer sends after it has read the endpoint's (plain) close and before its own close:
+    /// traffic that crossed the close on the wire (begin on a new channel, end on an unmapped channel, flow)
+    #[serde(default)]
+    pub crossing_frames: u8,
+    /// at a peer-initiated close the application drops all its session handles in the same instant, so
+    /// their end frames are queued when the close arrives: they are flushed before the answering close
+    #[serde(default)]
+    pub busy_at_peer_close: bool,
 }
 
 fn ev() -> BoxedStrategy<Ev> {
@@ -85,8 +93,8 @@ fn ev() -> BoxedStrategy<Ev> {
 }
 
 pub fn case_strategy() -> BoxedStrategy<Case> {
-    (0u8..2, prop_oneof![Just(0u16), Just(1), Just(500)], prop_oneof![Just(0u16), Just(1), Just(500)], vec(ev(), 1..6), any::<u64>(), gen::choices_bytes(), simnet::strat::pipe_cfg(), (prop_oneof![3 => Just(None), 1 => Just(Some(50u32)), 1 => Just(Some(400u32))], prop_oneof![3 => Just(0u16), 1 => Just(120u16), 1 => Just(1000u16)], prop_oneof![2 => Just(0u16), 1 => Just(3u16), 1 => Just(100u16)], proptest::option::weighted(0.08, 0u8..6)))
-        .prop_map(|(role, header_delay, open_delay, script, tokio_seed, choices, pipe, (peer_idle, close_answer_delay, peer_ch0, pre_open))| Case { role, header_delay, open_delay, script, tokio_seed, choices, pipe: PipeCfg { cap: 1 << 22, ..pipe }, peer_idle, close_answer_delay, peer_ch0, pre_open })
+    (0u8..2, prop_oneof![Just(0u16), Just(1), Just(500)], prop_oneof![Just(0u16), Just(1), Just(500)], vec(ev(), 1..6), any::<u64>(), gen::choices_bytes(), simnet::strat::pipe_cfg(), (prop_oneof![3 => Just(None), 1 => Just(Some(50u32)), 1 => Just(Some(400u32))], prop_oneof![3 => Just(0u16), 1 => Just(120u16), 1 => Just(1000u16)], prop_oneof![2 => Just(0u16), 1 => Just(3u16), 1 => Just(100u16)], proptest::option::weighted(0.08, 0u8..6), prop_oneof![3 => Just(0u8), 1 => 1u8..4], any::<bool>()))
+        .prop_map(|(role, header_delay, open_delay, script, tokio_seed, choices, pipe, (peer_idle, close_answer_delay, peer_ch0, pre_open, crossing_frames, busy_at_peer_close))| Case { role, header_delay, open_delay, script, tokio_seed, choices, pipe: PipeCfg { cap: 1 << 22, ..pipe }, peer_idle, close_answer_delay, peer_ch0, pre_open, crossing_frames, busy_at_peer_close })
         .boxed()
 }
 
@@ -203,15 +211,29 @@ async fn drive<R: Send + 'static>(conn: ConnectionHandle<R>, mut peer: Peer, c: 
             Ev::LocalClose { peer_err } => {
                 let pe = async {
                     let _c = peer.wait_for("close").await?;
+                    for j in 0..c.crossing_frames {
+                        let body = match j % 3 {
+                            0 => Peer::begin_body(None, 0, 10, 10, None),
+                            1 => Peer::end_body(None),
+                            _ => Peer::flow_body(Some(0), 10, 0, 10, None, None, None, false, true),
+                        };
+                        // the endpoint may already have given up on the connection: a failed write is fine
+                        let _ = peer.send_frame(50 + j as u16, &body, &[]).await;
+                    }
                     peer.read_until(tokio::time::Instant::now() + std::time::Duration::from_millis(c.close_answer_delay as u64)).await;
                     let err = if *peer_err { Some(Peer::error_body("amqp:resource-limit-exceeded", Some("peer says no"))) } else { None };
-                    peer.send_frame(0, &Peer::close_body(err), &[]).await?;
+                    let w = peer.send_frame(0, &Peer::close_body(err), &[]).await;
+                    if c.crossing_frames == 0 {
+                        w?;
+                    }
                     Ok::<(), String>(())
                 };
                 let (r, p) = tokio::join!(conn.close(), pe);
                 p.map_err(|e| format!("{what}: {e}"))?;
                 match (r, peer_err) {
                     (Ok(()), false) => {}
+                    // with traffic crossing the close the result is not judged, only the wire (one close, nothing after)
+                    (_, _) if c.crossing_frames > 0 => {}
                     (Err(ConnError::RemoteClosedWithError(e)), true) => {
                         if format!("{:?}", e.condition) != format!("{:?}", definitions::ErrorCondition::AmqpError(AmqpError::ResourceLimitExceeded)) {
                             return Err(format!("{what}: close() reports the peer's error with condition {:?}", e.condition));
@@ -276,8 +298,28 @@ async fn drive<R: Send + 'static>(conn: ConnectionHandle<R>, mut peer: Peer, c: 
             Ev::PeerClose { err } => {
                 info.peer_close = true;
                 let e = if *err { Some(Peer::error_body("amqp:connection:forced", Some("go away"))) } else { None };
+                let busy = if c.busy_at_peer_close { sessions.len() } else { 0 };
+                let before = items(&peer).len();
+                if busy > 0 {
+                    // the handles go away in the same instant: their end frames are queued, not yet written
+                    sessions.clear();
+                }
                 peer.send_frame(0, &Peer::close_body(e), &[]).await?;
                 let r = tokio::time::timeout(std::time::Duration::from_secs(10), conn.on_close()).await;
+                if busy > 0 {
+                    peer.settle().await;
+                    let after: Vec<Item> = items(&peer)[before..].to_vec();
+                    let names: Vec<&str> = after.iter().filter_map(|i| if let Item::Frame(f) = i { Some(f.name()) } else { None }).collect();
+                    let ends_before_close = names.iter().take_while(|n| **n != "close").filter(|n| **n == "end").count();
+                    if ends_before_close != busy {
+                        return Err(format!("{what}: {busy} session handles were dropped just before the peer's close arrived, but {ends_before_close} end frames were flushed before the answering close (frames: {names:?})"));
+                    }
+                    if let Some(Item::Frame(cf)) = after.iter().find(|i| matches!(i, Item::Frame(f) if f.name() == "close")) {
+                        if matches!(cf.field(0), RValue::Described(..)) {
+                            return Err(format!("{what}: the peer's close was answered by a close carrying an error although nothing illegal happened (frames: {names:?})"));
+                        }
+                    }
+                }
                 match (r, err) {
                     (Ok(Err(ConnError::RemoteClosed)), false) => {}
                     (Ok(Err(ConnError::RemoteClosedWithError(e))), true) => {
@@ -579,7 +621,7 @@ fn run(ctx: &ShardCtx, rep: &mut Report) {
     MAX_SHRINK_ITERS.store(400, std::sync::atomic::Ordering::Relaxed);
     // positive control: a clean open/close must produce the reference trace in both roles
     for role in 0..2u8 {
-        let c = Case { role, header_delay: 0, open_delay: 0, script: vec![Ev::LocalClose { peer_err: false }], tokio_seed: 0, choices: vec![], pipe: PipeCfg { cap: 1 << 22, ..PipeCfg::default() }, peer_idle: None, close_answer_delay: 0, peer_ch0: 0, pre_open: None };
+        let c = Case { role, header_delay: 0, open_delay: 0, script: vec![Ev::LocalClose { peer_err: false }], tokio_seed: 0, choices: vec![], pipe: PipeCfg { cap: 1 << 22, ..PipeCfg::default() }, peer_idle: None, close_answer_delay: 0, peer_ch0: 0, pre_open: None, crossing_frames: 0, busy_at_peer_close: false };
         if let Err(e) = run_case(&c) {
             rep.violations.push(Violation { variant: "lifecycle".into(), signature: "positive-control".into(), detail: format!("positive control (clean open/close, role {role}) failed: {e}"), case: serde_json::to_value(&c).unwrap() });
             return;
